@@ -62,6 +62,38 @@ def handle (j : Json) : Except String Json := do
       ("decoded", bytesJ (pctDecode (final.take (final.length - 2)))),
       ("safe", .bool (pathSafe (tmpName Gen.tmpSep Gen.tmpSuffix final pid) && pathSafe final)),
       ("partsOk", .bool (tmpPartsOk Gen.tmpSep Gen.tmpSuffix))]
+  if let .ok wj := j.getObjVal? "writers" then
+    -- two writers of ONE result file with their own temporaries: the given schedule ("A" / "B" = whose next file
+    -- operation runs; what is left over runs at the end), each writer cut after `cutA` / `cutB` operations; what a
+    -- reader would find under the result file's name after every single operation
+    let n ← jNat (← field wj "size")
+    let cutA ← jNat (← field wj "cutA")
+    let cutB ← jNat (← field wj "cutB")
+    let sched ← jList jStr (← field wj "schedule")
+    let size : Nat → Nat := fun _ => n
+    let fin : Path K := .final "k"
+    let opsA := (saveOpsAt size (.tmp "A") fin 1).take cutA
+    let opsB := (saveOpsAt size (.tmp "B") fin 2).take cutB
+    let mut a := opsA
+    let mut b := opsB
+    let mut l : List (Op K Nat) := []
+    for who in sched do
+      if who == "A" then
+        match a with
+        | o :: rest => l := l ++ [o]; a := rest
+        | [] => pure ()
+      else
+        match b with
+        | o :: rest => l := l ++ [o]; b := rest
+        | [] => pure ()
+    l := l ++ a ++ b
+    let mut fs : FS K Nat := FS.empty
+    let mut seen : Array Json := #[]
+    for o in l do
+      fs := applyOp fs o
+      seen := seen.push (fileJ (fs fin))
+    return Json.mkObj [("seen", .arr seen), ("final", fileJ (fs fin)), ("tmpA", fileJ (fs (.tmp "A"))),
+      ("tmpB", fileJ (fs (.tmp "B"))), ("same", .bool ((applyOps FS.empty l) fin == fs fin))]
   let mode ← jMode (← field j "mode")
   let tbl ← jList (jPair jNat jNat) (← field j "sizes")
   let size := sizeOf tbl
